@@ -351,7 +351,7 @@ func (e *Engine) checkProperty(id, tier string, seed int, only string) int {
 		fmt.Printf("ENGINE-FAULT property=%s: no function under contract\n", id)
 		return 2
 	}
-	timeout := 10
+	timeout := 20
 	if tier == "thorough" {
 		timeout = 60
 	}
@@ -388,7 +388,14 @@ func (e *Engine) checkProperty(id, tier string, seed int, only string) int {
 			pending = append(pending, o)
 		}
 	}
-	e.solveAll(pending, outDir, timeout, 8)
+	e.solveAll(pending, outDir, timeout, 5) // 5 obligations x 3 solvers: no more solver processes than cores (16)
+	if os.Getenv("P9VC_SLOW") != "" {
+		for _, o := range obls {
+			if o.Time > 3 {
+				fmt.Fprintf(os.Stderr, "slow %.1fs %s %s\n", o.Time, o.Name, o.Output)
+			}
+		}
+	}
 	// group by site
 	type site struct {
 		name             string
